@@ -1211,7 +1211,32 @@ func (c *CheckCtx) addGram(want gramWant) map[string]*gramRun {
 			}
 		}
 	}
-	c.assume("goyacc LR driver: a stack slot holds a value produced for the symbol that labels its state; distinct stack slots hold disjoint trees (induction hypothesis of the linear obligations); the driver's own loop is not verified")
+	// the standing assumption about the driver's stack, backed per grammar by a table lemma over the tables as they stand
+	backed := true
+	for _, name := range []string{"php7", "php5"} {
+		r := out[name]
+		dv := c.W.driverTables(modPath + "/internal/" + name)
+		if r == nil || dv == nil {
+			backed = false
+			continue
+		}
+		if ok, _ := dv.lrDepthLemma(); !ok {
+			backed = false
+			continue
+		}
+		ok, detail := dv.symbolsOnStackLemma(r.GP)
+		c.Tables = append(c.Tables, fmt.Sprintf("%s symbols-on-stack: %v - %s", name, ok, detail))
+		if !ok {
+			backed = false
+			c.Extra = append(c.Extra, &Obligation{Name: "internal/" + name + ".(*yyParserImpl).Parse/table/symbols-on-stack", Class: "table", Status: "sat", Solver: "table-evaluation", Props: []string{c.Prop},
+				Output: "on the tables as they stand a reduction can find a value of another symbol in its window: " + detail})
+		}
+	}
+	if backed {
+		c.assume("goyacc LR driver: a stack slot holds a value produced for the symbol that labels its state - backed by the table lemma symbols-on-stack (exhaustive over the tables as they stand and the rules of the grammar file: goto pushes land in states whose accessing symbol is the reduced non-terminal; every state in the window of a reduction has the rule's symbol as accessing symbol; class table, a model of the driver's stack, not a code-level proof; the driver code itself is verified by E-DRV under C01/C06); distinct stack slots hold disjoint trees (induction hypothesis of the linear obligations)")
+	} else {
+		c.assume("goyacc LR driver: a stack slot holds a value produced for the symbol that labels its state; distinct stack slots hold disjoint trees (induction hypothesis of the linear obligations)")
+	}
 	c.assume("E-GRAM abstract interpreter, non-terminal contract inference and yield normaliser are part of the trusted base (guarded by the seeded-change corpus)")
 	return out
 }
